@@ -552,4 +552,5 @@ package cisco
 // as sub-command never starts with one of these words, so the diff never
 // removes such a line from an interface of the device.
 //vc:func (*State).checkIOSInterfaces$1
+//vc:  inline
 //vc:  assert[C07,C02] at "l[j] = sc" @interfaceDefinitionLinesNotDiffed sc.parsed != "shutdown" && !strings.CutPrefix$1(sc.parsed, "ip address ") && !strings.HasPrefix(sc.parsed, "ip unnumbered") && !strings.HasPrefix(sc.parsed, "ip inspect") && !strings.Cut$2(sc.parsed, "vrf forwarding ")
